@@ -1281,6 +1281,10 @@ func typeToInt(token string) (uint16, bool) {
 
 // stringToTTL parses things like 2w, 2m, etc, and returns the time in seconds.
 func stringToTTL(token string) (uint32, bool) {
+	if token == "" {
+		// Not a time at all: the end of the line or of the input where a number is due.
+		return 0, false
+	}
 	var s, i uint
 	for _, c := range token {
 		switch c {
